@@ -1200,10 +1200,20 @@ except_clauses:
 try_stmt:
 	TRY ':' suite except_clauses
 	{
+		if len($4) == 0 {
+			// try: needs at least one except clause or a finally clause,
+			// and else: needs an except clause
+			yylex.(*yyLex).SyntaxError("invalid syntax")
+		}
 		$$ = &ast.Try{StmtBase: ast.StmtBase{Pos: $<pos>$}, Body: $3, Handlers: $4}
 	}
 |	TRY ':' suite except_clauses ELSE ':' suite
 	{
+		if len($4) == 0 {
+			// try: needs at least one except clause or a finally clause,
+			// and else: needs an except clause
+			yylex.(*yyLex).SyntaxError("invalid syntax")
+		}
 		$$ = &ast.Try{StmtBase: ast.StmtBase{Pos: $<pos>$}, Body: $3, Handlers: $4, Orelse: $7}
 	}
 |	TRY ':' suite except_clauses FINALLY ':' suite
@@ -1212,6 +1222,11 @@ try_stmt:
 	}
 |	TRY ':' suite except_clauses ELSE ':' suite FINALLY ':' suite
 	{
+		if len($4) == 0 {
+			// try: needs at least one except clause or a finally clause,
+			// and else: needs an except clause
+			yylex.(*yyLex).SyntaxError("invalid syntax")
+		}
 		$$ = &ast.Try{StmtBase: ast.StmtBase{Pos: $<pos>$}, Body: $3, Handlers: $4, Orelse: $7, Finalbody: $10}
 	}
 
